@@ -14,12 +14,12 @@ Definition nz_hdr (iS iK : Z) (h : header) : header :=
 Definition nz_seg (iS iK : Z) (s : segment) : segment := mkSeg (nz_hdr iS iK (s_hdr s)) (s_text s).
 Definition nz_tx (iS iK : Z) (x : transmit) : transmit := mkTx (nz_seg iS iK (t_seg x)) (t_needs x).
 
-(* everything of a TCB except SND.WL1/WL2 (never observable: they only gate
-   the update of SND.WND) and, in SynSent, the still-raw RCV.IRS/RCV.NXT *)
+(* everything of a TCB except SND.WL2 (never observable: it only gates the
+   update of SND.WND) and, in SynSent, the still-raw RCV.IRS/RCV.NXT/SND.WL1 *)
 Record tview := mkView {
   w_lport : Z; w_rport : Z; w_mtu : Z; w_listen : bool; w_st : state;
   w_una : Z; w_nxt : Z; w_swnd : Z;
-  w_rcv : option (Z * Z);
+  w_rcv : option (Z * Z * Z);     (* RCV.IRS, RCV.NXT, SND.WL1 relative to the peer's ISN *)
   w_rwnd : Z;
   w_out : list Z; w_retx : list transmit; w_oneshot : list header; w_fin : bool;
   w_in_segs : list segment; w_in_text : list Z; w_rto : Z; w_tw : option Z }.
@@ -27,7 +27,8 @@ Record tview := mkView {
 Definition nz_tcb (iO iP : Z) (t : tcb) : tview :=
   mkView (lport t) (rport t) (mtu t) (listen_init t) (st t)
          (wsub (snd_una t) iO) (wsub (snd_nxt t) iO) (snd_wnd t)
-         (if is_synsent (st t) then None else Some (wsub (rcv_irs t) iP, wsub (rcv_nxt t) iP))
+         (if is_synsent (st t) then None
+          else Some (wsub (rcv_irs t) iP, wsub (rcv_nxt t) iP, wsub (snd_wl1 t) iP))
          (rcv_wnd t)
          (out_text t) (map (nz_tx iO iP) (retx t)) (map (nz_hdr iO iP) (oneshot t)) (fin_pending t)
          (map (nz_seg iP iO) (in_segs t)) (in_text t) (rto t) (time_wait t).
@@ -92,7 +93,7 @@ Proof.
   rewrite (map_ext (fun x => nz_seg (wadd iP dP) (wadd iO dO) (sh_seg dP dO x)) (nz_seg iP iO))
     by (intros a; apply nz_seg_sh).
   destruct (is_synsent (st t)) eqn:E; [reflexivity|].
-  destruct (Hv E) as [-> ->]. rewrite !wsub_shift. reflexivity.
+  destruct (Hv E) as [[-> ->] ->]. rewrite !wsub_shift. reflexivity.
 Qed.
 
 Lemma nz_end_rel dO dP iO iP e e' : erel dO dP e e' ->
